@@ -112,20 +112,23 @@ Proof.
   specialize (K (2, 9) (or_intror (or_introl eq_refl))). vm_compute in K. discriminate.
 Qed.
 
-(* GENUINE DEFECT (wire form, legacy peer): a vector with merge versions and no previous versions, sent to a
-   peer that holds a legacy revision (history = hlvHistory , revID , revTreeHistory...).  toHistoryForHLV gives
-   "mv1,mv2;" , the sender appends ",3-abc" , the receiver glues  cv,mv1,mv2;,3-abc  and
-   extractHLVFromBlipString fails on the empty entry in front of the legacy id ("Malformed version string ,
-   delimiter not found") -- the revision is refused with 422.  Monitor signature
-   wire-legacy-mv-only-history-rejected (harness stream wire-legacy, real buildRevHistory /
-   blipRevMessageProperties / GetHLVFromRevMessage). *)
+(* GENUINE DEFECT (wire form, legacy peer), REPAIRED in /repo by commit 136d16a -- the witness below is about the
+   sender BEFORE that commit ([history_legacy_old] = history_legacy_gen false; the correspondence and
+   C10_wire_legacy_roundtrip use the repaired sender, switch [legacy_sender_repaired] in HLVLegacy.v).
+   A vector with merge versions and no previous versions, sent to a peer that holds a legacy revision
+   (history = hlvHistory , revID , revTreeHistory...): toHistoryForHLV gives "mv1,mv2;" , the old sender appended
+   ",3-abc" , the receiver glues  cv,mv1,mv2;,3-abc  and extractHLVFromBlipString fails on the empty entry in
+   front of the legacy id ("Malformed version string , delimiter not found") -- the revision was refused with
+   422.  Monitor signature wire-legacy-mv-only-history-rejected (harness stream wire-legacy, real
+   buildRevHistory / blipRevMessageProperties / GetHLVFromRevMessage); it fires again on a tree with 136d16a
+   reverted.  With the repaired sender the same input round-trips (wire_legacy_mv_only_repaired). *)
 Definition wl_vec : svec := mkS 0 [97] 5 [([98], 3)] [].      (* cv 5@a, mv {b:3}, no pv *)
 Definition wl_legacy : list bytes := [[51; 45; 97; 98; 99]].   (* "3-abc" *)
 
 Lemma wire_legacy_mv_only_refuted :
   sendable wl_vec /\ wl_legacy <> [] /\ (forall x, In x wl_legacy -> legacy_ok x) /\
-  history_legacy wl_vec wl_legacy = [51; 64; 98; 59; 44; 51; 45; 97; 98; 99] /\     (* "3@b;,3-abc" *)
-  extract_hlv (wire_join (cv_string wl_vec) (history_legacy wl_vec wl_legacy)) = None.
+  history_legacy_old wl_vec wl_legacy = [51; 64; 98; 59; 44; 51; 45; 97; 98; 99] /\     (* "3@b;,3-abc" *)
+  extract_hlv (wire_join (cv_string wl_vec) (history_legacy_old wl_vec wl_legacy)) = None.
 Proof.
   split; [|split; [discriminate|split; [|split; vm_compute; reflexivity]]].
   - unfold sendable, wl_vec. cbn [s_src s_ver s_mv s_pv map fst].
@@ -142,13 +145,20 @@ Proof.
     repeat constructor; unfold COMMA, SEMI; lia.
 Qed.
 
+(* the full round trip is false for the OLD sender ... *)
 Theorem wire_legacy_full_statement_refuted :
   ~ (forall v lg, sendable v -> lg <> [] -> (forall x, In x lg -> legacy_ok x) ->
-     exists v', extract_hlv (wire_join (cv_string v) (history_legacy v lg)) = Some (v', lg) /\ svec_equiv v' (wire_view v)).
+     exists v', extract_hlv (wire_join (cv_string v) (history_legacy_old v lg)) = Some (v', lg) /\ svec_equiv v' (wire_view v)).
 Proof.
   intros H. destruct wire_legacy_mv_only_refuted as [A [B [C [_ D]]]].
   destruct (H wl_vec wl_legacy A B C) as [v' [E _]]. rewrite D in E. discriminate.
 Qed.
+
+(* ... and the repaired sender writes "3@b;3-abc" for the same input, which parses back *)
+Lemma wire_legacy_mv_only_repaired :
+  history_legacy wl_vec wl_legacy = [51; 64; 98; 59; 51; 45; 97; 98; 99] /\
+  exists v', extract_hlv (wire_join (cv_string wl_vec) (history_legacy wl_vec wl_legacy)) = Some (v', wl_legacy).
+Proof. split; [vm_compute; reflexivity|]. eexists. vm_compute. reflexivity. Qed.
 
 (* ---------- BY DESIGN, not defects: compaction is sound (C10_compact_sound) but not complete ---------- *)
 (* local compaction: the incoming revision was already known, afterwards it is reported as a conflict *)
